@@ -249,6 +249,16 @@ func c14GenCfg(r *vu.Rng) c14Cfg {
 		cdt: c14Pick(r, tab), cet: c14Pick(r, tab),
 		gz:  r.Intn(2),
 	}
+	// SETTINGS_MAX_HEADER_LIST_SIZE over its whole uint32 range (0 = default). The server advertises
+	// uint32(MaxHeaderBytes+320); the values below make that 2^31-1, 2^31, 2^31+320, 2^31+2000,
+	// 2^31+9000, 2^32-2, 2^32-1 and 2^30 (values around 2^31 are where 32-bit arithmetic on the limit
+	// wraps to something as small as an ordinary header block).
+	if r.Chance(1, 5) {
+		c.smh = c14Pick(r, []int{1<<31 - 321, 1<<31 - 320, 1 << 31, 1<<31 + 1680, 1<<31 + 8680, 1<<32 - 322, 1<<32 - 321, 1 << 30})
+	}
+	if r.Chance(1, 5) {
+		c.cmh = c14Pick(r, []int{1<<31 - 1, 1 << 31, 1<<31 + 320, 1<<31 + 2000, 1<<31 + 9000, 1<<32 - 2, 1<<32 - 1, 1 << 30})
+	}
 	return c
 }
 
